@@ -118,6 +118,10 @@ type Op struct {
 	Park bool  `json:"park,omitempty"` // user function calls vs.Park() (C16)
 	On   bool  `json:"on,omitempty"`   // SetEvictedCallback: install (true) / remove (false)
 	Muts []Mut `json:"muts,omitempty"` // Range: calls the visitor makes on the same container (C07)
+	// FnAdv > 0: the user function takes time (advances the virtual clock by FnAdv);
+	// FnDef != 0: the user function calls SetDefaultExpiration(FnDef). Twin comparison (C12) only.
+	FnAdv int64 `json:"fnadv,omitempty"`
+	FnDef int64 `json:"fndef,omitempty"`
 }
 
 // Mut is a call made from inside a Range visitor at its At-th invocation (0-based).
